@@ -224,7 +224,9 @@ std::string gen_string(uint64_t gs, int which, int len) {
     std::string s;
     for (int i = 0; i < len; ++i) {
         uint64_t r = mix(gs + (uint64_t) which * 1315423911ULL, (uint64_t) i);
+        static const unsigned char odd[] = {0x1f, 0x01, 0x09, 0x0a, 0x1e, 0x7f, 0x80, 0xff, 0x1f, 0x0d};     // any byte but NUL is content (0x1f doubles as the stored terminator's second byte)
         if (r % 11 == 0 && i + 1 < len) { s += "\xc3\xa9"; ++i; }     // a 2-byte UTF-8 char
+        else if (r % 17 == 3) s += (char) odd[(r >> 8) % sizeof odd];
         else s += (char) (0x20 + r % 0x5f);
     }
     return s;
